@@ -1,9 +1,9 @@
 #!/bin/sh
-# usage: lib/confirm_mutant.sh <ID> <letter> <worktree>
+# usage: lib/confirm_mutant.sh <ID> <letter> <worktree> [<source dir> [<stored letter>]]
 # confirms a sub-agent's seeded change myself: demo passes clean, fails patched, pinned suite
 # still 400/400 with the patch; then stores it under /verif/seeded/<ID>_<letter>/
-id="$1"; L="$2"; wt="$3"; src=/tmp/mut_$id/$L
-dst=/verif/seeded/${id}_$L
+id="$1"; L="$2"; wt="$3"; src=${4:-/tmp/mut_$id}/$L
+dst=/verif/seeded/${id}_${5:-$L}
 git -C "$wt" checkout -q -- . ; git -C "$wt" checkout -q --detach main 2>/dev/null
 HOLOPY_REPO=$wt /venv/bin/python $src/demo.py >/dev/null 2>&1; clean=$?
 git -C "$wt" apply $src/patch.diff || { echo "$id $L: patch does not apply"; exit 1; }
